@@ -145,3 +145,54 @@ Proof.
 Qed.
 
 End Dec.
+
+(* ------------------------------------------------------------------ with references (AgreementRef.v) *)
+From Verif Require Import Schema.AgreementRef.
+
+Section DecRef.
+Variable fin_b : f64 -> bool.
+Variable allow_null : bool.
+Variable OR : oracles.
+Variable defs : env.
+Variable K : nat.
+
+Fixpoint follow (fuel : nat) (s : schema) : option (nat * schema) :=
+  match s_ref s with
+  | None => Some (O, s)
+  | Some r =>
+      match fuel with
+      | O => None
+      | S f => match lookup_def defs r with
+               | Some u => match follow f u with Some (k, t) => Some (S k, t) | None => None end
+               | None => None
+               end
+      end
+  end.
+
+Lemma follow_chain : forall fuel s k t, follow fuel s = Some (k, t) -> chain defs k s t /\ (k <= fuel)%nat.
+Proof.
+  induction fuel as [|f IH]; intros s k t H; cbn [follow] in H.
+  - destruct (s_ref s) eqn:E; [discriminate|]. inversion H; subst. split; [constructor; exact E | lia].
+  - destruct (s_ref s) as [r|] eqn:E; [|inversion H; subst; split; [constructor; exact E | lia]].
+    destruct (lookup_def defs r) as [u|] eqn:El; [|discriminate]. destruct (follow f u) as [[k' t']|] eqn:Ef; [|discriminate].
+    inversion H; subst. destruct (IH u k' t Ef) as [Hc Hk]. split; [econstructor; eassumption | lia].
+Qed.
+
+Fixpoint cleanr_b (n : nat) (s : schema) {struct n} : bool :=
+  match n with
+  | O => false
+  | S m => match follow K s with
+           | Some (_, t) => local_clean_b fin_b allow_null OR t && kids_b (cleanr_b m) t
+           | None => false
+           end
+  end.
+
+Theorem cleanr_b_sound : forall n s, cleanr_b n s = true -> cleanr (finP fin_b) allow_null OR defs K n s.
+Proof.
+  induction n as [|n IH]; intros s H; [discriminate|]. cbn [cleanr_b] in H.
+  destruct (follow K s) as [[k t]|] eqn:Ef; [|discriminate]. apply andb_true_iff in H. destruct H as [H1 H2].
+  destruct (follow_chain K s k t Ef) as [Hc Hk]. exists k, t. split; [exact Hc|]. split; [exact Hk|].
+  split; [apply local_clean_b_sound; exact H1 | apply (kids_b_sound (cleanr_b n) _ t IH H2)].
+Qed.
+
+End DecRef.
